@@ -1057,7 +1057,7 @@ func LoadAllSpecs(repo, verif string, modPath string) (*SpecDB, error) {
 		if info.IsDir() && (info.Name() == ".git" || info.Name() == "node_modules") {
 			return filepath.SkipDir
 		}
-		if !info.IsDir() && info.Name() == "zz_contracts_verif.go" {
+		if !info.IsDir() && strings.HasPrefix(info.Name(), "zz_contracts") && strings.HasSuffix(info.Name(), "_verif.go") {
 			files = append(files, p)
 		}
 		return nil
